@@ -473,3 +473,89 @@ theorem valueByTag_joinF (tag : Bytes) (hs : SOH ∉ tag) (f0 : Bytes) (fs : Lis
           apply (isPrefixOf_iff_take _ _).mpr
           simpa using h
         simp [htk]
+
+/-! ### every byte string that ends with SOH is an image of SOH-free fields -/
+
+theorem splitSOH_sohFree : ∀ (w : Bytes) (g : Bytes), g ∈ splitSOH w → SOH ∉ g
+  | [], g, h => by simp [splitSOH] at h; subst h; simp
+  | c :: cs, g, h => by
+    rw [splitSOH_cons] at h
+    cases hs : splitSOH cs with
+    | nil => exact absurd hs (splitSOH_ne_nil cs)
+    | cons p ps =>
+      rw [hs] at h
+      have ihp : SOH ∉ p := splitSOH_sohFree cs p (by simp [hs])
+      have ihps : ∀ x ∈ ps, SOH ∉ x := fun x hx => splitSOH_sohFree cs x (by simp [hs, hx])
+      by_cases hc : c = SOH
+      · simp only [hc, if_true, List.mem_cons] at h
+        rcases h with h | h | h
+        · subst h; simp
+        · subst h; exact ihp
+        · exact ihps g h
+      · simp only [hc, if_false, List.mem_cons] at h
+        rcases h with h | h
+        · subst h
+          simp only [List.mem_cons, not_or]
+          exact ⟨fun e => hc e.symm, ihp⟩
+        · exact ihps g h
+
+theorem splitSOH_inv : ∀ (w : Bytes) (fs : List Bytes), splitSOH w = fs ++ [[]] → w = joinF fs
+  | [], fs, h => by
+    cases fs with
+    | nil => rfl
+    | cons f fs' => simp [splitSOH] at h
+  | c :: cs, fs, h => by
+    rw [splitSOH_cons] at h
+    cases hs : splitSOH cs with
+    | nil => exact absurd hs (splitSOH_ne_nil cs)
+    | cons p ps =>
+      rw [hs] at h
+      by_cases hc : c = SOH
+      · simp only [hc, if_true] at h
+        cases fs with
+        | nil => simp at h
+        | cons f fs' =>
+          simp only [List.cons_append, List.cons.injEq] at h
+          obtain ⟨h1, h2⟩ := h
+          subst h1
+          have := splitSOH_inv cs fs' (by rw [hs]; exact h2)
+          subst hc
+          simp [joinF, this]
+      · simp only [hc, if_false] at h
+        cases fs with
+        | nil => simp at h
+        | cons f fs' =>
+          simp only [List.cons_append, List.cons.injEq] at h
+          obtain ⟨h1, h2⟩ := h
+          have := splitSOH_inv cs (p :: fs') (by rw [hs, h2]; rfl)
+          subst h1
+          simp [joinF, this]
+
+/-- a byte string has a field decomposition (`wireFields`) exactly when it is `joinF` of SOH-free fields -/
+theorem wireFields_some (w : Bytes) (fs : List Bytes) (h : wireFields w = some fs) :
+    w = joinF fs ∧ ∀ g ∈ fs, SOH ∉ g := by
+  unfold wireFields at h
+  split at h
+  · rename_i rest hr
+    simp at h; subst h
+    have hsp : splitSOH w = rest.reverse ++ [[]] := by
+      have := congrArg List.reverse hr
+      simpa using this
+    refine ⟨splitSOH_inv w _ hsp, fun g hg => splitSOH_sohFree w g (by rw [hsp]; simp [hg])⟩
+  · simp at h
+
+theorem indexOf_prefix (pat : Bytes) : ∀ (s : Bytes) (i : Nat), indexOf pat s = some i → pat.isPrefixOf (s.drop i) = true
+  | [], i, h => by
+    unfold indexOf at h
+    split at h
+    · rename_i hp; simp at h; subst h; simp [hp]
+    · simp at h
+  | c :: cs, i, h => by
+    rw [indexOf_cons'] at h
+    split at h
+    · rename_i hp; simp at h; subst h; simpa using hp
+    · cases hi : indexOf pat cs with
+      | none => simp [hi] at h
+      | some j =>
+        simp [hi] at h; subst h
+        simpa using indexOf_prefix pat cs j hi
